@@ -848,7 +848,9 @@ class LearnerND(BaseLearner):
             # this is the first point, nothing to do, just set the range
             self._min_value = np.min(new_output)
             self._max_value = np.max(new_output)
-            self._old_scale = self._scale or 1
+            # may be 0 (scalar first value): the test below is relative, so that
+            # the recompute schedule does not depend on the unit of the values
+            self._old_scale = self._scale
             return False
 
         # if range in one or more directions is doubled, then update all losses
@@ -871,8 +873,7 @@ class LearnerND(BaseLearner):
 
         self._output_multiplier = scale_multiplier
 
-        scale_factor = self._scale / self._old_scale
-        if scale_factor > self._recompute_losses_factor:
+        if self._scale > self._recompute_losses_factor * self._old_scale:
             self._old_scale = self._scale
             self._recompute_all_losses()
             return True
